@@ -23,12 +23,38 @@ declarations; CTParserBuilder::build() Ok/Err (harness c03, generation only)
 is compared with `build_ok_spec` for %expect/%expect-rr around the true counts.
 A differing cell is itself the failing input (grammar, state, token, expected,
 actual, justifying items).
+
+Three-way cells (a shift and two or more reductions on one token).  The property
+text states Yacc's rules pairwise; with a shift and k >= 2 reductions the ORDER
+of the pairwise rules matters.  StateTable::new settles reduce/reduce first and
+compares the shift with the survivor (= `cell_spec`); byacc (mkpar.c
+remove_conflicts = extracted `cell_yacc`) and bison (conflicts.c set_conflicts =
+extracted `cell_bison`) compare the shift by precedence with EVERY reduction
+first.  theories/C03/Yacc3*.v: outside three-way cells all three coincide
+(C03_yacc_agrees_outside_three_way, C03_cell_bison_eq_yacc_outside_three_way,
+C03_yacc_disagreement_is_three_way); on three-way cells they differ
+(C03_three_way_left/_nonassoc/_report_refuted: cell_yacc against the mirror, for
+every iteration order), and byacc and bison differ from each other in corners
+(C03_bison_yacc_differ, _count_differ; C03_bison_agrees_without_token_prec).
+The REFERENCE of every cell (entry, reported shift/reduce pairs, losing
+productions of the reported reduce/reduce pairs) is cell_yacc; where cell_bison
+differs from it either is accepted (the text does not choose between the two
+Yaccs).  A cell matching neither is
+  * the KNOWN class (known_findings.json C03-three-way-cell) iff it is a three-way
+    cell and the implementation equals cell_spec there: one KNOWN-FINDING line per
+    run with the number of such cells; the %expect verdicts that differ only
+    because the counts differ through such cells belong to the same finding;
+  * a VIOLATION otherwise.
+The model of byacc is corroborated against ocamlyacc (a Berkeley yacc 1.9
+derivative, same remove_conflicts) on conflict totals when it is installed.
 """
 from vlib import core, lr
 from gen import c03gen
 import json
+import os
 from checks.tblcommon import dump_case, TDump, RawGram, decl_sections, model_sections, KIND_NAME
 
+KNOWN_3WAY = "three-way cell: reduce/reduce settled before precedence"
 KNOWN_EXPECT = "%expect/%expect-rr is not compared when the table has no conflict at all (declared count != 0 yet the build succeeds)"
 
 
@@ -36,8 +62,32 @@ def pp_cell(c):
     return "Error" if c is None else {"S": "Shift(%s)", "R": "Reduce(%s)", "A": "Accept%s"}[c[0]] % (c[1] if len(c) > 1 else "")
 
 
-def check_table(ctx, g, fam, d, ms):
-    """compare one dumped table with the model's sections; returns (ok, stats)"""
+def rr_like_spec(cs, recs):
+    """k candidates -> k-1 pairs (x,y), x<y both candidates, every losing candidate exactly once as y"""
+    return (len(recs) == max(len(cs) - 1, 0) and all(x < y and x in cs and y in cs for x, y in recs)
+            and sorted(y for _, y in recs) == sorted(c for c in cs if c != min(cs)))
+
+
+def rr_like_yacc(cs, recs, yp):
+    """as many pairs as cell_yacc reports, the same losing productions, x<y both candidates (which production a
+    loser is paired with is not fixed by the property text for more than two candidates)"""
+    return (len(recs) == len(yp) and sorted(y for _, y in recs) == sorted(y for _, y in yp)
+            and all(x < y and x in cs and y in cs for x, y in recs))
+
+
+def by_cell(recs, n):
+    r = {}
+    for x in recs:
+        r.setdefault((x[0], x[1]), []).append(tuple(x[2:2 + n]) if n > 1 else x[2])
+    return r
+
+
+def check_table(ctx, g, fam, d, ms, gid="?"):
+    """compare one dumped table with the model's sections; returns (ok, stats).
+    The reference of every cell is `cell_yacc` (byacc's order of the pairwise rules: entry, reported shift/reduce
+    pairs, reported reduce/reduce pairs); `cell_spec` (= what the mirror of StateTable::new provably computes)
+    is the same outside three-way cells (C03_yacc_agrees_outside_three_way) and serves to recognise the known
+    class: a three-way cell on which the implementation differs from cell_yacc but equals cell_spec."""
     ok = True
     src = d.src
     w = dict(kv.split("=") for kv in ms.get("W", [[]])[0])
@@ -46,69 +96,100 @@ def check_table(ctx, g, fam, d, ms):
                                "state_mirror_meets_spec (wf_state_b=%s prec_consistent_b=%s): the theorem does not apply to this table"
                                % (w.get("wf"), w.get("pc")), "grammar": src}, no_input=True)
         ok = False
+    ints = lambda l: [int(x) for x in l]
     spec = {}
     for s in ms.get("SC", []):
-        spec[(int(s[0]), int(s[1]))] = tuple([s[2]] + [int(x) for x in s[3:]])
-    # ---- every cell ----
+        spec[(int(s[0]), int(s[1]))] = tuple([s[2]] + ints(s[3:]))
+    yov = {}
+    for s in ms.get("YC", []):
+        yov[(int(s[0]), int(s[1]))] = None if s[2] == "E" else tuple([s[2]] + ints(s[3:]))
+    three = {(int(s[0]), int(s[1])): s[2] == "1" for s in ms.get("Y3", [])}
+    # cell_bison where it differs from cell_yacc: entry + all its pairs
+    bov = {}
+    for s in ms.get("B3", []):
+        bov[(int(s[0]), int(s[1]))] = [None if s[2] == "E" else tuple([s[2]] + ints(s[3:])), [], []]
+    for s in ms.get("BS", []):
+        bov[(int(s[0]), int(s[1]))][1].append(int(s[2]))
+    for s in ms.get("BR", []):
+        bov[(int(s[0]), int(s[1]))][2].append((int(s[2]), int(s[3])))
+    isr = by_cell(d.xs, 1)
+    ssr = by_cell([ints(s[:3]) for s in ms.get("SS", [])], 1)
+    ysr = by_cell([ints(s[:3]) for s in ms.get("YS", [])], 1)
+    irr = by_cell(d.xr, 2)
+    yrr = by_cell([ints(s[:4]) for s in ms.get("YR", [])], 2)
+    cands = {}
+    for s in ms.get("SRC", []):
+        cands[(int(s[0]), int(s[1]))] = ints(s[2:])
+    # ---- every cell: entry, reported shift/reduce pairs, reported reduce/reduce pairs ----
     ncells = 0
+    known = []
+    reported = False
+    as_which = {"byacc": 0, "bison": 0}
     for st in range(d.nstates):
         for a in range(d.ntoks):
             ncells += 1
-            exp, act = spec.get((st, a)), d.actions.get((st, a))
-            if exp != act:
-                ok = False
-                wit = d.cell_witness(st, a)
-                wit.update({"what": "table cell differs from the cell Yacc's rules prescribe", "grammar": src,
-                            "expected": pp_cell(exp), "actual": pp_cell(act), "family": fam})
-                ctx.violation(wit)
-                break
-        else:
-            continue
-        break
+            c = (st, a)
+            act = d.actions.get(c)
+            sp = spec.get(c)
+            ya = yov[c] if c in yov else sp
+            cs = cands.get(c, [])
+            i_sr, i_rr = sorted(isr.get(c, [])), irr.get(c, [])
+            like_yacc = (act == ya and i_sr == sorted(ysr.get(c, [])) and rr_like_yacc(cs, i_rr, yrr.get(c, [])))
+            if c in bov:
+                # byacc and bison differ on this (three-way) cell: the property text does not choose, either is accepted
+                b = bov[c]
+                like_bison = (act == b[0] and i_sr == sorted(b[1]) and rr_like_yacc(cs, i_rr, b[2]))
+                if like_yacc or like_bison:
+                    as_which["byacc" if like_yacc else "bison"] += 1
+                    continue
+            elif like_yacc:
+                continue
+            like_spec = (act == sp and i_sr == sorted(ssr.get(c, [])) and rr_like_spec(cs, i_rr))
+            if c in three and like_spec:
+                known.append(c)
+                continue
+            ok = False
+            if reported:
+                continue
+            reported = True
+            wit = d.cell_witness(st, a)
+            parts = []
+            if act != ya:
+                parts.append("table cell differs from the cell Yacc's rules prescribe")
+            if i_sr != sorted(ysr.get(c, [])):
+                parts.append("reported shift/reduce conflicts differ from the pairs settled by the default rule")
+            if not rr_like_yacc(cs, i_rr, yrr.get(c, [])):
+                parts.append("reported reduce/reduce pairs of the cell do not match the pairs settled by the default rule "
+                             "(x<y both candidates, every production suppressed by the reduce/reduce rule exactly once as y)")
+            if c in bov:
+                wit["bison's order (differs from byacc's here; either is accepted)"] = {
+                    "entry": pp_cell(bov[c][0]), "shift_reduce": sorted(bov[c][1]), "reduce_reduce": bov[c][2]}
+            wit.update({"what": "; ".join(parts), "grammar": src, "family": fam,
+                        "expected": pp_cell(ya), "actual": pp_cell(act),
+                        "shift_reduce_pairs(prod)": {"expected": sorted(ysr.get(c, [])), "reported": i_sr},
+                        "reduce_reduce_pairs": {"expected": yrr.get(c, []), "reported": i_rr, "candidates": cs},
+                        "three_way_cell(shift + >=2 reductions)": c in three,
+                        "cell_spec(order of StateTable::new)": {"entry": pp_cell(sp), "shift_reduce": sorted(ssr.get(c, []))}})
+            ctx.violation(wit)
+    # conflict records that belong to no cell of the table
+    stray = [x for x in d.xs if not (0 <= x[0] < d.nstates and 0 <= x[1] < d.ntoks)] + \
+            [x for x in d.xr if not (0 <= x[0] < d.nstates and 0 <= x[1] < d.ntoks)]
+    if stray:
+        ok = False
+        ctx.violation({"what": "conflict records name a state/token outside the table", "grammar": src, "records": stray[:5]})
     if ms.get("SAR"):
         ok = False
         st, a = map(int, ms["SAR"][0][:2])
         wit = d.cell_witness(st, a)
         wit.update({"what": "a cell offers accept and a reduction, yet table construction succeeded", "grammar": src})
         ctx.violation(wit)
-    # ---- reported shift/reduce conflicts: exactly the triples settled by the default rule ----
-    ss = sorted((int(s[0]), int(s[1]), int(s[2])) for s in ms.get("SS", []))
-    if sorted(d.xs) != ss:
-        ok = False
-        extra = sorted(set(d.xs) - set(ss))
-        missing = sorted(set(ss) - set(d.xs))
-        x = (extra or missing or d.xs)[0]
-        wit = d.cell_witness(x[0], x[1])
-        wit.update({"what": "reported shift/reduce conflicts differ from the pairs settled by the default rule",
-                    "grammar": src, "reported_not_expected(state,tok,prod)": extra, "expected_not_reported": missing,
-                    "reported": sorted(d.xs), "expected": ss})
-        ctx.violation(wit)
-    # ---- reduce/reduce: per cell k candidates -> k-1 pairs (x<y, both candidates, every loser once) ----
-    cands = {}
-    for s in ms.get("SRC", []):
-        cands[(int(s[0]), int(s[1]))] = [int(x) for x in s[2:]]
-    bycell = {}
-    for (st, a, x, y) in d.xr:
-        bycell.setdefault((st, a), []).append((x, y))
-    for cell in sorted(set(cands) | set(bycell)):
-        cs = cands.get(cell, [])
-        recs = bycell.get(cell, [])
-        good = (len(recs) == max(len(cs) - 1, 0) and all(x < y and x in cs and y in cs for x, y in recs)
-                and sorted(y for _, y in recs) == sorted(c for c in cs if c != min(cs)))
-        if not good:
-            ok = False
-            wit = d.cell_witness(cell[0], cell[1])
-            wit.update({"what": "reported reduce/reduce pairs of a cell do not match its candidates (k candidates -> k-1 pairs "
-                                "(x,y), x<y both candidates, every losing candidate exactly once as y)",
-                        "grammar": src, "candidates": cs, "reported_pairs": recs})
-            ctx.violation(wit)
-            break
     nsr, nrr = len(d.xs), len(d.xr)
     if (d.conflicts or (0, 0)) != (nsr, nrr):
         ok = False
         ctx.violation({"what": "sr_len()/rr_len() differ from the number of conflict records", "grammar": src,
                        "lens": d.conflicts, "records": (nsr, nrr)})
     # ---- the mirror run on the implementation's own states (its orders) must go through ----
+    # (the mirror models the order of StateTable::new; on a table without known-class cells it is also Yacc's)
     m = ms.get("M", [["?"]])[0][0]
     if m != "ok":
         ok = False
@@ -138,12 +219,73 @@ def check_table(ctx, g, fam, d, ms):
     for s in ms.get("SD", []):
         k = {"S": "shift", "R": "reduce", "E": "nonassoc_error"}[s[2]] + ("_default_reported" if s[3] == "1" else "_by_precedence")
         kinds[k] = kinds.get(k, 0) + 1
+    yc = [len(ms.get("YS", [])), len(ms.get("YR", []))]
+    bc = list(yc)
+    for c, b in bov.items():
+        bc[0] += len(b[1]) - len(ysr.get(c, []))
+        bc[1] += len(b[2]) - len(yrr.get(c, []))
     stats = {"cells": ncells, "sr_reported": nsr, "rr_reported": nrr, "resolution": kinds,
-             "rr_cells": len(cands), "max_rr_candidates": max([len(c) for c in cands.values()] + [0])}
+             "rr_cells": len(cands), "max_rr_candidates": max([len(c) for c in cands.values()] + [0]),
+             "three_way_cells": len(three),
+             "three_way_cells_where_byacc_differs_from_cell_spec": sum(1 for v in three.values() if not v),
+             "three_way_cells_where_byacc_and_bison_differ": len(bov),
+             "three_way_cells_as_bison_not_byacc": as_which["bison"],
+             "three_way_cells_as_byacc_not_bison": as_which["byacc"],
+             "known_cells": [(gid, c[0], d.tname.get(c[1], "$end")) for c in known],
+             "known_cells_entry_differs": sum(1 for c in known if d.actions.get(c) != (yov[c] if c in yov else spec.get(c))),
+             "known_cells_byacc_and_bison_agree": sum(1 for c in known if c not in bov),
+             "yacc_counts": tuple(yc), "bison_counts": tuple(bc)}
     return ok, stats
 
 
-def expect_variants(rng, g, sr, rr, nvar):
+def to_mly(g):
+    """the abstract grammar in ocamlyacc's input syntax (unit actions)"""
+    alltoks = list(g.tokens) + [x for _, l in g.precs for x in l if x not in g.tokens]
+    alltoks += [p for _, ps in g.rules for _, p in ps if p and p not in alltoks]
+    tn = {t: "T%d" % i for i, t in enumerate(alltoks)}
+    rn = {n: "r%d" % i for i, (n, _) in enumerate(g.rules)}
+    o = ["%token " + " ".join(tn.values())]
+    for kind, toks in g.precs:
+        o.append("%%%s %s" % (kind, " ".join(tn[t] for t in toks)))
+    o += ["%%start %s" % rn[g.start], "%%type <unit> %s" % rn[g.start], "%%"]
+    for n, ps in g.rules:
+        o.append("%s: %s;" % (rn[n], " | ".join(
+            " ".join(tn[x] if k == 't' else rn[x] for k, x in syms) + ((" %%prec %s" % tn[prec]) if prec else "") + " {()}"
+            for syms, prec in ps)))
+    return "\n".join(o) + "\n"
+
+
+def byacc_totals(items):
+    """conflict totals of ocamlyacc (Berkeley yacc 1.9 with an OCaml back end: mkpar.c remove_conflicts is byacc's) for
+    (grammar, (sr, rr) of cell_yacc) pairs -> (compared, agreeing, first disagreements); None if ocamlyacc is missing.
+    Corroboration of the MODEL of byacc only (ocamlyacc builds LALR(1) automata, the implementation Pager's: totals can
+    legitimately differ), so nothing here raises an alarm."""
+    import shutil, subprocess, tempfile, re
+    if not shutil.which("ocamlyacc"):
+        return None
+    n = agree = 0
+    bad = []
+    with tempfile.TemporaryDirectory(prefix="c03-oy-") as td:
+        for g, y in items:
+            try:
+                open(os.path.join(td, "g.mly"), "w").write(to_mly(g))
+                p = subprocess.run(["ocamlyacc", "g.mly"], cwd=td, capture_output=True, text=True, timeout=20)
+            except Exception:
+                continue
+            if p.returncode != 0:
+                continue
+            out = p.stdout + p.stderr
+            m1, m2 = re.search(r"(\d+) shift/reduce", out), re.search(r"(\d+) reduce/reduce", out)
+            o = (int(m1.group(1)) if m1 else 0, int(m2.group(1)) if m2 else 0)
+            n += 1
+            if o == tuple(y):
+                agree += 1
+            elif len(bad) < 3:
+                bad.append({"grammar": g.render(), "ocamlyacc": o, "cell_yacc": list(y)})
+    return n, agree, bad
+
+
+def expect_variants(rng, g, sr, rr, nvar, ycounts=None):
     """(expect, expectrr) pairs around the true counts"""
     pool = {(None, None), (sr, rr), (sr, None), (None, rr), (sr + 1, rr), (sr, rr + 1), (sr + 1, None), (None, rr + 1),
             (0, 0), (2, None), (None, 1)}
@@ -153,6 +295,11 @@ def expect_variants(rng, g, sr, rr, nvar):
         pool |= {(sr, rr - 1), (None, rr - 1)}
     pool = sorted(pool, key=lambda x: (x[0] is None, x[0] or 0, x[1] is None, x[1] or 0))
     must = [(sr, rr)]
+    if ycounts and tuple(ycounts) != (sr, rr):
+        # the counts Yacc reports differ from the implementation's (three-way cells): what byacc/bison need is a case
+        must.append(tuple(ycounts))
+        pool = sorted(set(pool) | {(ycounts[0], None), (None, ycounts[1])},
+                      key=lambda x: (x[0] is None, x[0] or 0, x[1] is None, x[1] or 0))
     if (sr, rr) == (0, 0):
         must.append(rng.choice([(rng.randint(1, 3), None), (None, rng.randint(1, 3)), (1, 1)]))
     rest = [p for p in pool if p not in must]
@@ -173,6 +320,11 @@ def run(ctx):
         grams, fams = [RawGram(json.load(open(replay))["grammar"])], ["replay"]
     else:
         grams, fams = c03gen.generate(rng, ctx.n(1500, 12000))
+        # three-way cells (a shift and two or more reductions on one token): the three grammars of the known finding
+        # first, then random ones; own random stream so that the families above are generated as before
+        import random as _random
+        g3, f3 = c03gen.generate_three_way(_random.Random(ctx.seed * 7919 + 3), ctx.n(150, 3000), seen=[g.render() for g in grams])
+        grams, fams = g3 + grams, f3 + fams
     srcs = [g.render() for g in grams]
     impl = core.run_lines([exe_lr], [dump_case(s) for s in srcs])
     dumps = []
@@ -183,11 +335,16 @@ def run(ctx):
         dumps.append(d)
         ext.append(line + decl_sections(g, d) if d.ok else "SKIP")
     model = core.run_lines([mexe], ext)
-    tot = {"cells": 0, "sr_reported": 0, "rr_reported": 0, "rr_cells": 0}
+    tot = {"cells": 0, "sr_reported": 0, "rr_reported": 0, "rr_cells": 0, "three_way_cells": 0,
+           "three_way_cells_where_byacc_differs_from_cell_spec": 0, "three_way_cells_where_byacc_and_bison_differ": 0,
+           "three_way_cells_as_bison_not_byacc": 0, "three_way_cells_as_byacc_not_bison": 0,
+           "known_cells_entry_differs": 0, "known_cells_byacc_and_bison_agree": 0}
+    known_cells = []
+    known_tables = 0
     res_hist = {}
     built = []
     tblerr = []
-    for g, fam, d, ml in zip(grams, fams, dumps, model):
+    for gi, (g, fam, d, ml) in enumerate(zip(grams, fams, dumps, model)):
         ctx.count("family_" + fam)
         if not d.ok:
             what = d.line.split()[0] if d.line else "EMPTY"
@@ -202,8 +359,17 @@ def run(ctx):
             ctx.violation({"what": "model driver failed on the implementation's dump", "grammar": d.src, "model": ml[:200]}, no_input=True)
             ctx.oblige(False)
             continue
-        ok, st = check_table(ctx, g, fam, d, model_sections(ml))
-        ctx.oblige(ok)
+        ok, st = check_table(ctx, g, fam, d, model_sections(ml), gid="%s#%d" % (fam, gi))
+        ctx.oblige(ok)               # every cell outside the known class is as Yacc prescribes
+        d.ycounts, d.bcounts, d.known3 = st["yacc_counts"], st["bison_counts"], bool(st["known_cells"])
+        if st["known_cells"]:
+            # the table as a whole is not as Yacc prescribes: demanded, failed, matched by the known finding
+            known_tables += 1
+            known_cells += st["known_cells"]
+            ctx.oblige(False)
+            gid, kst, ktok = st["known_cells"][0]
+            ctx.violation({"what": KNOWN_3WAY, "grammar": d.src, "family": fam, "state": kst, "token": ktok,
+                           "cells": [list(c[1:]) for c in st["known_cells"]]}, known_key=KNOWN_3WAY)
         for k in tot:
             tot[k] += st[k]
         for k, v in st["resolution"].items():
@@ -211,8 +377,16 @@ def run(ctx):
         changed = sum(st["resolution"].values()) + st["rr_cells"]
         ctx.case(d.src, changed > 0, {"grammar": d.src, "family": fam, "states": d.nstates, "cells": st["cells"],
                                       "resolution": st["resolution"], "rr_cells": st["rr_cells"],
+                                      "three_way_cells": st["three_way_cells"],
                                       "sr_reported": st["sr_reported"], "rr_reported": st["rr_reported"]})
         built.append((g, d))
+    # ---- the model of byacc against a byacc derivative (corroboration, see byacc_totals) ----
+    if not replay:
+        pool = [(g, d.ycounts) for g, d in built if not getattr(g, "raw", False)]
+        with3 = [x for x in pool if x[0] in g3][:ctx.n(40, 600)]
+        oy = byacc_totals(with3 + [x for x in pool if x[0] not in g3][:ctx.n(20, 300)])
+        ctx.coverage["byacc_model_vs_ocamlyacc_conflict_totals"] = (
+            "ocamlyacc not installed" if oy is None else {"grammars": oy[0], "equal_totals": oy[1], "first_differences": oy[2]})
     # ---- construction errors: accept/reduce must be the reason (oracle: canonical LR(1) states) ----
     if tblerr:
         gd = core.run_lines([exe_ct], [dump_case(d.src) for _, _, d in tblerr])
@@ -230,16 +404,20 @@ def run(ctx):
     nexp = ctx.n(300, 2500)
     rng.shuffle(built)
     # grammars without conflicts first in line as well: the rule must also hold there
-    sel = built[:nexp]
+    # tables with known-class three-way cells first (the corpus grammars of the finding among them): there the counts
+    # Yacc reports differ from the implementation's, so %expect is decided on different numbers
+    pri = [x for x in built if x[1].known3][:ctx.n(20, 200)]
+    sel = pri + [x for x in built if not any(x is y for y in pri)][:nexp]
     cases = []
     for g, d in sel:
         sr, rr = d.conflicts or (0, 0)
+        yk = ((d.ycounts, d.bcounts, d.known3),)
         if getattr(g, "raw", False):
-            cases.append((d.src, "?", "?", sr, rr))
+            cases.append((d.src, "?", "?", sr, rr) + yk)
             continue
-        for e, err in expect_variants(rng, g, sr, rr, ctx.n(3, 5)):
+        for e, err in expect_variants(rng, g, sr, rr, ctx.n(3, 5), d.ycounts):
             g.expect, g.expectrr = e, err
-            cases.append((g.render(), e, err, sr, rr))
+            cases.append((g.render(), e, err, sr, rr) + yk)
         g.expect = g.expectrr = None
     ct = core.run_lines([exe_ct], [dump_case(c[0]) for c in cases])
     for i, (c, cl) in enumerate(zip(cases, ct)):
@@ -247,8 +425,8 @@ def run(ctx):
             # replay: the declared counts are read back from the grammar (YaccGrammar::expect / expectrr)
             kv = dict(x.split("=", 1) for x in cl.split()[2:])
             cases[i] = (c[0], None if kv["expect"] == "-" else int(kv["expect"]),
-                        None if kv["expectrr"] == "-" else int(kv["expectrr"]), c[3], c[4])
-    cases = [c if c[1] != "?" else (c[0], None, None, c[3], c[4]) for c in cases]
+                        None if kv["expectrr"] == "-" else int(kv["expectrr"]), c[3], c[4]) + c[5:]
+    cases = [c if c[1] != "?" else (c[0], None, None, c[3], c[4]) + c[5:] for c in cases]
     # ---- the ENTRY POINT and the two boolean settings are inputs too ----
     # every case above went through build() with warnings_are_errors(false) and error_on_conflicts at its default (true).
     # Second pass: the same grammars through the deprecated but public process_file() (it copies the builder field by
@@ -279,14 +457,21 @@ def run(ctx):
                     continue
             extra.append(c + (api, w, e))
     extra = list(dict.fromkeys(extra))
-    ct2 = core.run_lines([exe_ct], ["%s api=%s wae=%d eoc=%d" % (dump_case(c[0]), c[5], c[6], c[7]) for c in extra])
+    ct2 = core.run_lines([exe_ct], ["%s api=%s wae=%d eoc=%d" % (dump_case(c[0]), c[6], c[7], c[8]) for c in extra])
     cases = base + extra
     ct = list(ct) + list(ct2)
     mo = core.run_lines([mexe, "expect"], ["%s %s %d %d" % ("-" if c[1] is None else c[1], "-" if c[2] is None else c[2], c[3], c[4])
                                           for c in cases])
+    # the same rule on the counts of cell_yacc's reports: what the property demands
+    moy = core.run_lines([mexe, "expect"], ["%s %s %d %d" % ("-" if c[1] is None else c[1], "-" if c[2] is None else c[2],
+                                                             c[5][0][0], c[5][0][1]) for c in cases])
+    # ... and of cell_bison's (they differ from cell_yacc's only on three-way cells; either is accepted)
+    mob = core.run_lines([mexe, "expect"], ["%s %s %d %d" % ("-" if c[1] is None else c[1], "-" if c[2] is None else c[2],
+                                                             c[5][1][0], c[5][1][1]) for c in cases])
     n_known = 0
+    n_known3 = 0
     by_setting = {}
-    for (src, e, err, sr, rr, api, wae, eoc), cl, ml in zip(cases, ct, mo):
+    for (src, e, err, sr, rr, ((ysr, yrr), (bsr, brr), k3), api, wae, eoc), cl, ml, mly, mlb in zip(cases, ct, mo, moy, mob):
         f = cl.split()
         if not cl.startswith("CT "):
             ctx.count("expect_case_not_built")
@@ -299,14 +484,22 @@ def run(ctx):
             ctx.count("expect_case_outside_clause_warnings_are_errors")
             continue
         # error_on_conflicts(false) is the documented switch that turns the %expect comparison off
-        rule_ok = "spec=1" in ml
+        # rule_ok: the rule on Yacc's counts (the property); impl_ok: the rule on the counts the implementation
+        # reports itself (they differ only on tables with known-class three-way cells)
+        rule_ok = "spec=1" in mly
         spec_ok = rule_ok or not eoc
+        spec_ok_bison = "spec=1" in mlb or not eoc
+        impl_ok = "spec=1" in ml or not eoc
         mirror_ok = "mirror=1" in ml or not eoc
         consistent = (int(kv["sr"]), int(kv["rr"])) == (sr, rr) and kv["expect"] == ("-" if e is None else str(e)) \
             and kv["expectrr"] == ("-" if err is None else str(err)) \
             and (kv.get("api"), kv.get("wae"), kv.get("eoc")) == (api if api == "pf" else "build", str(wae), str(eoc))
-        good = consistent and verdict in ("ok", "err") and (verdict == "ok") == spec_ok
-        known_class = consistent and verdict == "ok" and not spec_ok and (sr, rr) == (0, 0) and mirror_ok
+        good = consistent and verdict in ("ok", "err") and ((verdict == "ok") == spec_ok or (verdict == "ok") == spec_ok_bison)
+        known_class = consistent and verdict == "ok" and not spec_ok and (sr, rr) == (0, 0) and (ysr, yrr) == (0, 0) and mirror_ok
+        # part of the three-way finding: the verdict follows the rule on the implementation's own counts, which differ
+        # from Yacc's only through known-class cells of this table
+        known3 = (not good) and consistent and verdict in ("ok", "err") and k3 and (sr, rr) not in ((ysr, yrr), (bsr, brr)) \
+            and (verdict == "ok") == impl_ok
         ctx.count("expect_build_" + verdict)
         by_setting[setting] = by_setting.get(setting, 0) + 1
         cls = ("conflicts_match_expect" if rule_ok else "conflicts_differ_from_expect") if (sr, rr) != (0, 0) else \
@@ -314,25 +507,29 @@ def run(ctx):
         ctx.count("expect_%s_%s" % ("process_file" if api == "pf" else "build", cls))
         if not good:
             data = {"what": "%s %s although the conflict counts (sr=%d, rr=%d) %s %%expect=%s %%expect-rr=%s (default 0)%s"
-                            % (entry, "succeeds" if verdict == "ok" else "fails (%s)" % verdict, sr, rr,
+                            % (entry, "succeeds" if verdict == "ok" else "fails (%s)" % verdict, ysr, yrr,
                                "equal" if rule_ok else "differ from", e, err,
                                "" if eoc else " and error_on_conflicts(false) switches the comparison off"),
                     "grammar": src, "entry_point": entry,
                     "settings": {"warnings_are_errors": bool(wae), "error_on_conflicts": bool(eoc),
                                  "grammar_warnings": kv.get("warn")},
-                    "harness": cl[:200], "model": ml,
+                    "harness": cl[:200], "model": mly, "counts_reported_by_the_implementation": [sr, rr],
+                    "counts_in_byacc's_order": [ysr, yrr], "counts_in_bison's_order": [bsr, brr],
                     "mirror_of_ctbuilder_agrees_with_implementation": (verdict == "ok") == mirror_ok}
-            if known_class:
+            if known3:
+                n_known3 += 1
+                ctx.violation(data, known_key=KNOWN_3WAY)
+            elif known_class:
                 n_known += 1
                 if n_known <= 3:
                     ctx.violation(data, known_key=KNOWN_EXPECT)
             else:
                 ctx.violation(data)
-        if (verdict == "ok") != mirror_ok and not good:
+        if (verdict == "ok") != mirror_ok and not good and not known3:
             # (build_ok_mirror models the known defect; an implementation that follows the rule instead is fine)
             ctx.violation({"what": "%s follows neither the %%expect rule nor the mirror of ctbuilder.rs:905-929" % entry,
                            "grammar": src, "settings": setting, "harness": cl[:200], "model": ml}, no_input=False)
-        ctx.oblige(good or known_class)
+        ctx.oblige(good or known_class)       # (a known3 case stays undischarged: excluded through the known finding)
         ctx.case("expect:%s:%s" % (setting, src), True, None)
     ctx.coverage["expect_builds_by_entry_point_and_settings"] = dict(sorted(by_setting.items()))
     ctx.coverage["cells_compared"] = tot["cells"]
@@ -341,19 +538,48 @@ def run(ctx):
                                                    "cells_with_2+_reduce_candidates": tot["rr_cells"]}
     ctx.coverage["expect_builds"] = len(cases)
     ctx.coverage["expect_known_defect_instances"] = n_known
+    ctx.coverage["three_way_cells"] = {
+        "cells_with_a_shift_and_2+_reductions": tot["three_way_cells"],
+        "of_these_byacc's_order_differs_from_cell_spec": tot["three_way_cells_where_byacc_differs_from_cell_spec"],
+        "of_these_byacc's_and_bison's_orders_differ(either accepted)": tot["three_way_cells_where_byacc_and_bison_differ"],
+        "implementation_as_bison_not_byacc": tot["three_way_cells_as_bison_not_byacc"],
+        "implementation_as_byacc_not_bison": tot["three_way_cells_as_byacc_not_bison"],
+        "known_class_cells(implementation = cell_spec, neither byacc's nor bison's cell)": len(known_cells),
+        "known_class_cells_with_a_different_table_entry": tot["known_cells_entry_differs"],
+        "known_class_cells_on_which_byacc_and_bison_agree": tot["known_cells_byacc_and_bison_agree"],
+        "tables_with_known_class_cells": known_tables,
+        "expect_builds_decided_on_counts_that_differ_through_known_class_cells": n_known3,
+        "first_known_cells": ["%s/state %d/token '%s'" % c for c in known_cells[:5]]}
+    if known_cells:
+        # the KNOWN-FINDING line carries the number of cells of this run and the first of them
+        for i, k in enumerate(ctx.known_hits):
+            if k.get("match") == KNOWN_3WAY:
+                k = dict(k)
+                k["note"] = "%s (%d cells, first: %s/state %d/token '%s')" % ((KNOWN_3WAY, len(known_cells)) + known_cells[0])
+                ctx.known_hits[i] = k
     ctx.coverage["rule"] = ("families (gen/c03gen.py): precedence expression grammars (1-6 binary operators over random %left/%right/"
                             "%nonassoc lines, undeclared operators, pseudo tokens, %prec to higher/lower lines and other kinds, "
                             "unary/postfix/juxtaposition), dangling else with/without precedence fix, k-way reduce/reduce "
                             "(A: x; B: x; C: x), %nonassoc chains, random ambiguous grammars with random precedence lines and "
                             "%prec, mixed statement/expression grammars, accept/reduce shapes, shared expr/nullable families, "
-                            "fixed witnesses; every cell (state x token) of every table is compared; non-trivial = at least one "
+                            "fixed witnesses; three-way families (gen/c03gen.py generate_three_way, own random stream): the three "
+                            "grammars of the known finding, S: E | L f 'n'; L: E o E %prec ?; E: E o E | ... with random "
+                            "levels/kinds/missing precedences and rule order, S: A 'y' | B 'y' | 'x' 'y' 'z' with A,B(,C): 'x' %prec ?; "
+                            "every cell (state x token) of every table is compared with cell_yacc / cell_bison (entry, reported "
+                            "shift/reduce pairs, losing productions of the reported reduce/reduce pairs); non-trivial = at least one "
                             "cell with two or more candidates (resolution changes a cell); distinct by grammar text; %expect "
                             "variants: equal, +-1, absent, present with true count 0; every %expect case runs through build() with "
                             "warnings_are_errors(false)/error_on_conflicts(true), and again through the deprecated "
                             "process_file() (plus a share through build()) with warnings_are_errors x error_on_conflicts "
                             "varied (warnings_are_errors(true) only on grammars without warnings); expected outcome = "
                             "build_ok_spec when error_on_conflicts, success otherwise")
-    ctx.assumptions += ["the item sets / lookaheads / edges the cells are re-derived from are the implementation's own "
+    ctx.assumptions += ["'the action Yacc prescribes' for a cell with a shift and two or more reductions is taken from byacc "
+                        "(mkpar.c remove_conflicts: the shift is compared by precedence with every reduction in rule order "
+                        "before the reduce/reduce rule applies) = extracted cell_yacc; a reported pair is a conflict byacc counts "
+                        "(SRcount/RRcount); bison (conflicts.c set_conflicts, extracted cell_bison) applies the same order but "
+                        "differs from byacc on some three-way cells (C03_bison_yacc_differ, C03_bison_yacc_count_differ): there "
+                        "either result is accepted, also for the %expect counts; the known class is 'neither'",
+                        "the item sets / lookaheads / edges the cells are re-derived from are the implementation's own "
                         "(their correctness is C01/C02/C16's subject); C03 decides resolution and reporting on top of them",
                         "for k > 2 reduce/reduce candidates the property text does not fix which pairs are reported: count, "
                         "membership, x<y and 'every loser exactly once as second component' are demanded",
